@@ -82,6 +82,8 @@ func init() {
 		"      then [GNode (GKey \"direct_return\") \"Lambda\" \"\"; GBranch (GKey \"tools\") [GKey \"chat\"; GKey \"direct_return\"] (fun b => if b then GKey \"direct_return\" else GKey \"chat\");\n"+
 		"            GEdge (GKey \"direct_return\") GEnd]\n"+
 		"      else [GEdge (GKey \"tools\") (GKey \"chat\")]).\n"+
+		"Definition compile_options : list string := [\"compose.WithMaxRunSteps(config.MaxStep)\"].\n"+
+		"Definition export_options : list string := [\"compose.WithMaxRunSteps(config.MaxStep)\"].\n"+
 		"Definition compile_max_steps (max_step : nat) : nat := max_step.\n"+
 		"Definition compile_trigger_mode : string := \"AnyPredecessor\".\n"+
 		"Definition state_init_len (max_step : nat) : nat := 0%nat.\n"+
@@ -114,6 +116,7 @@ func c18_mark(v c18_rval, a bool) c18_rval {
 }
 
 type c18_rEnv struct {
+	elems    map[string]c18_rval // "L[i]" inside `for i := range L`: the current element
 	locals   map[string]c18_rval
 	consts   map[string]string // package-level string constants (node keys)
 	loops    []string          // what `continue` / falling off a loop body means
@@ -156,6 +159,22 @@ func c18_selPath(e ast.Expr) (string, string, bool) {
 	}
 }
 
+// x[i].A.B -> (x[i], "A.B")
+func c18_selPathIndexed(e ast.Expr) (ast.Expr, string, bool) {
+	var parts []string
+	for {
+		switch x := e.(type) {
+		case *ast.SelectorExpr:
+			parts = append([]string{x.Sel.Name}, parts...)
+			e = x.X
+			continue
+		case *ast.IndexExpr:
+			return x, strings.Join(parts, "."), len(parts) > 0
+		}
+		return nil, "", false
+	}
+}
+
 func c18_isIdent(e ast.Expr, name string) bool {
 	id, ok := e.(*ast.Ident)
 	return ok && id.Name == name
@@ -194,6 +213,16 @@ func (e *c18_rEnv) expr(x ast.Expr) (c18_rval, error) {
 		case "compose.START":
 			return c18_rval{"GStart", "key"}, nil
 		}
+		if root, path, ok := c18_selPathIndexed(v); ok {
+			if l, ok := e.elems[c18_squash(types.ExprString(root))]; ok {
+				if f, ok := c18_reactFields[l.kind][path]; ok {
+					return c18_rval{fmt.Sprintf(f.text, l.text), f.kind}, nil
+				}
+				if _, known := c18_reactFields[l.kind]; known {
+					return c18_rval{"(unk " + c18_coqStr(l.kind+"."+path) + ")", "unk"}, nil
+				}
+			}
+		}
 		base, path, ok := c18_selPath(v)
 		if ok {
 			if l, ok := e.locals[base+"."+path]; ok { // config.ToolReturnDirectly, config.MaxStep
@@ -208,6 +237,10 @@ func (e *c18_rEnv) expr(x ast.Expr) (c18_rval, error) {
 					return c18_rval{"(unk " + c18_coqStr(l.kind+"."+path) + ")", "unk"}, nil
 				}
 			}
+		}
+	case *ast.IndexExpr:
+		if el, ok := e.elems[c18_squash(types.ExprString(v))]; ok {
+			return el, nil
 		}
 	case *ast.StarExpr:
 		// *p on a pointer field the model does not have: some unknown number
@@ -603,7 +636,45 @@ func (e *c18_rEnv) ifStmt(s *ast.IfStmt, after []ast.Stmt, k string) (string, er
 	if err != nil {
 		return "", err
 	}
-	return prefix + "(if " + cond.text + "\n then (" + th + ")\n else (" + el + "))", nil
+	ct := cond.text
+	for {
+		inner, ok := c18_stripNegb(ct)
+		if !ok {
+			break
+		}
+		ct, th, el = inner, el, th
+	}
+	return prefix + "(if " + ct + "\n then (" + th + ")\n else (" + el + "))", nil
+}
+
+// "(negb X)" with X one balanced term -> X
+func c18_stripNegb(s string) (string, bool) {
+	if !strings.HasPrefix(s, "(negb ") || !strings.HasSuffix(s, ")") {
+		return "", false
+	}
+	inner := s[len("(negb ") : len(s)-1]
+	depth := 0
+	for i, c := range inner {
+		switch c {
+		case '(':
+			depth++
+		case ')':
+			depth--
+			if depth < 0 {
+				return "", false
+			}
+			if depth == 0 && i != len(inner)-1 {
+				return "", false
+			}
+		case ' ':
+			if depth == 0 {
+				return "", false
+			}
+		case '"':
+			return "", false // string literals: keep as it is
+		}
+	}
+	return inner, depth == 0
 }
 
 // what follows a nested block: the statements after it, then k; "" when nothing follows at all
@@ -625,16 +696,17 @@ func (e *c18_rEnv) assign(s *ast.AssignStmt, after []ast.Stmt, k string) (string
 				return "", fmt.Errorf("ProcessState result assigned to a non-variable")
 			}
 			sv := fl.Type.Params.List[1].Names[0].Name
-			if sv != "state" {
-				return "", fmt.Errorf("the ProcessState closure calls the state %s", sv)
-			}
 			// the closure body runs inline; its `return nil` continues with the statements after the call,
 			// which see the variables the closure assigned.  Those statements are translated inside the
 			// closure's scope by a recursive call from the return.
 			env.locals[id.Name] = c18_rval{id.Name, "err"}
-			if _, ok := env.locals["state"]; !ok {
+			if st, ok := env.locals["state"]; !ok || st.kind != "state" {
 				return "", fmt.Errorf("ProcessState in a function that does not carry the state")
 			}
+			if old, clash := env.locals[sv]; clash && old.kind != "state" {
+				return "", fmt.Errorf("the ProcessState closure's state parameter shadows %s", sv)
+			}
+			env.locals[sv] = c18_rval{"state", "state"} // whatever the closure calls it
 			return env.closure(fl.Body.List, after, k)
 		}
 		// x := make(T, len(S)); copy(x, S)
@@ -703,7 +775,7 @@ func (e *c18_rEnv) assign(s *ast.AssignStmt, after []ast.Stmt, k string) (string
 				return "let " + lhs.Name + " := " + v.text + " in\n" + r, err
 			case *ast.SelectorExpr:
 				base, path, ok := c18_selPath(lhs)
-				if ok && e.locals[base].kind == "state" && base == "state" {
+				if ok && e.locals[base].kind == "state" {
 					f, known := c18_reactFields["state"][path]
 					if !known || f.kind != v.kind {
 						return "", fmt.Errorf("assignment to state.%s", path)
@@ -713,11 +785,57 @@ func (e *c18_rEnv) assign(s *ast.AssignStmt, after []ast.Stmt, k string) (string
 				}
 			}
 		}
+		if ix, ok := s.Rhs[0].(*ast.IndexExpr); ok && len(s.Lhs) == 2 && c18_isIdent(s.Lhs[0], "_") && s.Tok == token.DEFINE {
+			// _, ok := m[key]
+			okv, isId := s.Lhs[1].(*ast.Ident)
+			m, err := e.expr(ix.X)
+			if err != nil {
+				return "", err
+			}
+			key, err := e.expr(ix.Index)
+			if err != nil {
+				return "", err
+			}
+			if !isId || m.kind != "set" || key.kind != "str" {
+				return "", fmt.Errorf("map lookup outside the translated fragment")
+			}
+			if _, shadows := e.locals[okv.Name]; shadows {
+				return "", fmt.Errorf("map lookup shadows %s", okv.Name)
+			}
+			env.locals[okv.Name] = c18_rval{okv.Name, "bool"}
+			r, err := cont()
+			return "let " + okv.Name + " := (" + m.text + "_has " + key.text + ") in\n" + r, err
+		}
 		if len(s.Lhs) == 2 {
 			// state.A, state.B = f(…)   (a call of a translated function returning a pair)
 			v, err := e.expr(s.Rhs[0])
 			if err != nil {
 				return "", err
+			}
+			id0, isId0 := s.Lhs[0].(*ast.Ident)
+			id1, isId1 := s.Lhs[1].(*ast.Ident)
+			if isId0 && isId1 && s.Tok == token.DEFINE && id0.Name != "_" {
+				_, sh0 := e.locals[id0.Name]
+				_, sh1 := e.locals[id1.Name]
+				if sh0 || sh1 {
+					return "", fmt.Errorf("definition shadows %s / %s", id0.Name, id1.Name)
+				}
+				switch {
+				case v.kind == "tuple:int,bool" && id1.Name != "_":
+					// a, b := f(…)
+					env.locals[id0.Name] = c18_rval{id0.Name, "int"}
+					env.locals[id1.Name] = c18_rval{id1.Name, "bool"}
+					r, err := cont()
+					return "let '(" + id0.Name + ", " + id1.Name + ") := " + v.text + " in\n" + r, err
+				case v.kind == "bool":
+					// v, err := checker(…): the error result of a call the model takes as total
+					env.locals[id0.Name] = c18_rval{id0.Name, "bool"}
+					if id1.Name != "_" {
+						env.locals[id1.Name] = c18_rval{id1.Name, "err"}
+					}
+					r, err := cont()
+					return "let " + id0.Name + " := " + v.text + " in\n" + r, err
+				}
 			}
 			if v.kind == "tuple:int,bool" {
 				out := "let '(t1, t2) := " + v.text + " in\n"
@@ -725,7 +843,7 @@ func (e *c18_rEnv) assign(s *ast.AssignStmt, after []ast.Stmt, k string) (string
 				for n, lx := range s.Lhs {
 					base, path, ok := c18_selPath(lx)
 					f, known := c18_reactFields["state"][path]
-					if !ok || base != "state" || e.locals[base].kind != "state" || !known || f.kind != ks[n] {
+					if !ok || e.locals[base].kind != "state" || !known || f.kind != ks[n] {
 						return "", fmt.Errorf("tuple assignment outside the translated fragment")
 					}
 					out += "let state := gl_set_" + path + " state t" + strconv.Itoa(n+1) + " in\n"
@@ -754,7 +872,7 @@ func (e *c18_rEnv) closure(body []ast.Stmt, after []ast.Stmt, k string) (string,
 
 // for { x, err := sr.Recv(); if err == io.EOF { return … }; if err != nil { return …, err }; … }
 func (e *c18_rEnv) recvLoop(s *ast.ForStmt, after []ast.Stmt, k string) (string, error) {
-	if s.Init != nil || s.Cond != nil || s.Post != nil || len(s.Body.List) < 3 {
+	if s.Init != nil || s.Cond != nil || s.Post != nil || len(s.Body.List) < 2 {
 		return "", fmt.Errorf("for loop outside the translated fragment")
 	}
 	as, ok := s.Body.List[0].(*ast.AssignStmt)
@@ -781,26 +899,62 @@ func (e *c18_rEnv) recvLoop(s *ast.ForStmt, after []ast.Stmt, k string) (string,
 	if !ok1 || !ok2 {
 		return "", fmt.Errorf("Recv results assigned to non-variables")
 	}
-	eof, ok := s.Body.List[1].(*ast.IfStmt)
-	if !ok || eof.Init != nil || eof.Else != nil || c18_squash(types.ExprString(eof.Cond)) != er.Name+"==io.EOF" {
-		return "", fmt.Errorf("the end-of-stream test is not the second statement of the loop")
-	}
 	env := e.clone()
 	env.locals[x.Name] = c18_rval{x.Name, strings.TrimPrefix(src.kind, "list:")}
 	env.locals[er.Name] = c18_rval{er.Name, "err"}
-	atEOF, err := env.stmts(eof.Body.List, "")
+	// the handling of Recv's error, in one of the shapes
+	//   if err == io.EOF {A}; if err != nil {return …, err}
+	//   if err == io.EOF {A} else if err != nil {return …, err}          (also what a switch over the two becomes)
+	//   if err != nil { if err == io.EOF {A}; return …, err }
+	// (errors.Is(err, io.EOF) is read as err == io.EOF: Recv hands io.EOF on unwrapped)
+	isEOF := func(c ast.Expr) bool {
+		t := c18_squash(types.ExprString(c))
+		return t == er.Name+"==io.EOF" || t == "io.EOF=="+er.Name || t == "errors.Is("+er.Name+",io.EOF)"
+	}
+	var eofBody []ast.Stmt
+	used := 0
+	first, ok := s.Body.List[1].(*ast.IfStmt)
+	if !ok || first.Init != nil {
+		return "", fmt.Errorf("the end-of-stream test is not the second statement of the loop")
+	}
+	switch {
+	case isEOF(first.Cond) && first.Else == nil:
+		if len(s.Body.List) < 3 {
+			return "", fmt.Errorf("the error test is not the third statement of the loop")
+		}
+		pr, ok := s.Body.List[2].(*ast.IfStmt)
+		if !ok || !env.isErrPropagation(pr) || pr.Else != nil {
+			return "", fmt.Errorf("the error test is not the third statement of the loop")
+		}
+		eofBody, used = first.Body.List, 3
+	case isEOF(first.Cond):
+		pr, ok := first.Else.(*ast.IfStmt)
+		if !ok || pr.Init != nil || !env.isErrPropagation(pr) || pr.Else != nil {
+			return "", fmt.Errorf("the error test does not follow the end-of-stream test")
+		}
+		eofBody, used = first.Body.List, 2
+	case c18_squash(types.ExprString(first.Cond)) == er.Name+"!=nil" && first.Else == nil && len(first.Body.List) == 2:
+		inner, ok := first.Body.List[0].(*ast.IfStmt)
+		if !ok || inner.Init != nil || inner.Else != nil || !isEOF(inner.Cond) {
+			return "", fmt.Errorf("the end-of-stream test is not the first statement of the error handling")
+		}
+		pr := &ast.IfStmt{Cond: first.Cond, Body: &ast.BlockStmt{List: first.Body.List[1:]}}
+		if !env.isErrPropagation(pr) {
+			return "", fmt.Errorf("the error handling does not end by handing the error on")
+		}
+		eofBody, used = inner.Body.List, 2
+	default:
+		return "", fmt.Errorf("the end-of-stream test is not the second statement of the loop")
+	}
+	atEOF, err := env.stmts(eofBody, "")
 	if err != nil {
 		return "", err
-	}
-	pr, ok := s.Body.List[2].(*ast.IfStmt)
-	if !ok || !env.isErrPropagation(pr) || pr.Else != nil {
-		return "", fmt.Errorf("the error test is not the third statement of the loop")
 	}
 	e.tmp++
 	loop := "loop" + strconv.Itoa(e.tmp)
 	env.tmp = e.tmp
 	env.loops = append(append([]string{}, e.loops...), loop+" rest_"+loop)
-	body, err := env.stmts(s.Body.List[3:], loop+" rest_"+loop)
+	body, err := env.stmts(s.Body.List[used:], loop+" rest_"+loop)
 	if err != nil {
 		return "", err
 	}
@@ -847,6 +1001,14 @@ func (e *c18_rEnv) rangeLoop(s *ast.RangeStmt, after []ast.Stmt, k string) (stri
 			env.locals[id.Name] = c18_rval{id.Name, strings.TrimPrefix(src.kind, "list:")}
 		}
 	}
+	if id, ok := s.Key.(*ast.Ident); ok && id.Name != "_" {
+		// L[i] with the loop's own index (L is not assigned in the loop: checked by the kinds of assignments the fragment has)
+		env.elems = map[string]c18_rval{}
+		for k, v := range e.elems {
+			env.elems[k] = v
+		}
+		env.elems[c18_squash(types.ExprString(s.X)+"["+id.Name+"]")] = c18_rval{elem, strings.TrimPrefix(src.kind, "list:")}
+	}
 	next := loop + " (S " + idx + ") rest_" + loop
 	env.loops = append(append([]string{}, e.loops...), next)
 	body, err := env.stmts(s.Body.List, next)
@@ -859,6 +1021,52 @@ func (e *c18_rEnv) rangeLoop(s *ast.RangeStmt, after []ast.Stmt, k string) (stri
 
 // ---------------------------------------------------------------------------------------------
 // the functions of react.go
+
+// which local of NewAgent plays which part: the state pre-handler handed to AddChatModelNode / AddToolsNode, the
+// condition of the branch added with a named function (the one behind the model).  role -> identifier
+func c18_roleNames(newAgent *ast.FuncDecl) map[string]string {
+	roles := map[string]string{"modelPreHandle": "modelPreHandle", "toolsNodePreHandle": "toolsNodePreHandle", "modelPostBranchCondition": "modelPostBranchCondition"}
+	pre := func(c *ast.CallExpr) string {
+		for _, o := range c.Args {
+			if oc, ok := o.(*ast.CallExpr); ok && types.ExprString(oc.Fun) == "compose.WithStatePreHandler" && len(oc.Args) == 1 {
+				if id, ok := oc.Args[0].(*ast.Ident); ok {
+					return id.Name
+				}
+			}
+		}
+		return ""
+	}
+	ast.Inspect(newAgent.Body, func(n ast.Node) bool {
+		c, ok := n.(*ast.CallExpr)
+		if !ok {
+			return true
+		}
+		sel, ok := c.Fun.(*ast.SelectorExpr)
+		if !ok {
+			return true
+		}
+		switch sel.Sel.Name {
+		case "AddChatModelNode":
+			if p := pre(c); p != "" {
+				roles["modelPreHandle"] = p
+			}
+		case "AddToolsNode":
+			if p := pre(c); p != "" {
+				roles["toolsNodePreHandle"] = p
+			}
+		case "AddBranch":
+			if len(c.Args) == 2 {
+				if nb, ok := c.Args[1].(*ast.CallExpr); ok && types.ExprString(nb.Fun) == "compose.NewStreamGraphBranch" && len(nb.Args) == 2 {
+					if id, ok := nb.Args[0].(*ast.Ident); ok {
+						roles["modelPostBranchCondition"] = id.Name
+					}
+				}
+			}
+		}
+		return true
+	})
+	return roles
+}
 
 // the FuncLit assigned to `name := func…` in a function body
 func c18_assignedFuncLit(body *ast.BlockStmt, name string) *ast.FuncLit {
@@ -973,6 +1181,7 @@ func c18_extractReact(repo string) (string, string, error) {
 	if err != nil {
 		return "", "", err
 	}
+	c18_normaliseReact(f) // switch -> if chains, small private helpers inlined (c18_react_norm.go)
 	consts := c18_stringConsts(f)
 	var b strings.Builder
 	b.WriteString("(* Gen/ReactCode.v — GENERATED by tools/go2v (extractor \"react\") from flow/agent/react/react.go,\n")
@@ -985,6 +1194,7 @@ func c18_extractReact(repo string) (string, string, error) {
 		return "", "", fmt.Errorf("NewAgent / buildReturnDirectly not found")
 	}
 
+	roles := c18_roleNames(newAgent)
 	type part struct {
 		name string
 		gen  func() (string, error)
@@ -992,16 +1202,20 @@ func c18_extractReact(repo string) (string, string, error) {
 	parts := []part{
 		{"firstChunkStreamToolCallChecker", func() (string, error) { return c18_reactChecker(f, consts) }},
 		{"getReturnDirectlyToolCallIndex", func() (string, error) { return c18_reactRdIndex(f, consts) }},
-		{"modelPreHandle", func() (string, error) { return c18_reactModelPre(newAgent, consts) }},
-		{"toolsNodePreHandle", func() (string, error) { return c18_reactToolsPre(newAgent, consts) }},
-		{"modelPreHandle on the heap", func() (string, error) { return c18_heapPre(newAgent, "modelPreHandle", "model_pre_handle_heap", true) }},
-		{"toolsNodePreHandle on the heap", func() (string, error) {
-			return c18_heapPre(newAgent, "toolsNodePreHandle", "tools_pre_handle_heap", false)
+		{"modelPreHandle", func() (string, error) { return c18_reactModelPre(newAgent, consts, roles["modelPreHandle"]) }},
+		{"toolsNodePreHandle", func() (string, error) { return c18_reactToolsPre(newAgent, consts, roles["toolsNodePreHandle"]) }},
+		{"modelPreHandle on the heap", func() (string, error) {
+			return c18_heapPre(newAgent, roles["modelPreHandle"], "model_pre_handle_heap", true)
 		}},
-		{"modelPostBranchCondition", func() (string, error) { return c18_reactModelBranch(newAgent, consts) }},
+		{"toolsNodePreHandle on the heap", func() (string, error) {
+			return c18_heapPre(newAgent, roles["toolsNodePreHandle"], "tools_pre_handle_heap", false)
+		}},
+		{"modelPostBranchCondition", func() (string, error) {
+			return c18_reactModelBranch(newAgent, consts, roles["modelPostBranchCondition"])
+		}},
 		{"the return-directly branch", func() (string, error) { return c18_reactToolsBranch(buildRD, consts) }},
 		{"directReturn", func() (string, error) { return c18_reactDirectConvert(buildRD, consts) }},
-		{"the graph construction", func() (string, error) { return c18_reactGraphItems(newAgent, buildRD, consts) }},
+		{"the graph construction", func() (string, error) { return c18_reactGraphItems(f, newAgent, buildRD, consts, roles) }},
 		{"the compile options", func() (string, error) { return c18_reactCompile(newAgent) }},
 		{"Generate / Stream", func() (string, error) { return c18_reactEntries(f) }},
 		{"agent.ChatModelWithTools", func() (string, error) { return c18_chatModelWithTools(repo) }},
@@ -1119,8 +1333,8 @@ func c18_preHandleRet(kind string, withAlias bool) func(e *c18_rEnv, rs []ast.Ex
 }
 
 // modelPreHandle := func(ctx context.Context, input []*schema.Message, state *state) ([]*schema.Message, error)
-func c18_reactModelPre(newAgent *ast.FuncDecl, consts map[string]string) (string, error) {
-	fl := c18_assignedFuncLit(newAgent.Body, "modelPreHandle")
+func c18_reactModelPre(newAgent *ast.FuncDecl, consts map[string]string, goName string) (string, error) {
+	fl := c18_assignedFuncLit(newAgent.Body, goName)
 	if fl == nil {
 		return "", fmt.Errorf("not found")
 	}
@@ -1128,13 +1342,13 @@ func c18_reactModelPre(newAgent *ast.FuncDecl, consts map[string]string) (string
 	if err != nil {
 		return "", err
 	}
-	if names[2] != "state" {
-		return "", fmt.Errorf("the state parameter is called %s", names[2])
+	if names[1] == "state" || names[1] == "messageModifier" {
+		return "", fmt.Errorf("the input parameter is called %s", names[1])
 	}
-	env := &c18_rEnv{locals: map[string]c18_rval{names[1]: {names[1], "list:msg"}, "state": {"state", "state"}, "messageModifier": {"messageModifier", "optfn"}},
+	env := &c18_rEnv{locals: map[string]c18_rval{names[1]: {names[1], "list:msg"}, "state": {"state", "state"}, names[2]: {"state", "state"}, "messageModifier": {"messageModifier", "optfn"},
+		"config.MessageModifier": {"messageModifier", "optfn"}},
 		consts: consts, retType: "res (list msg) * gstate * bool", ret: c18_preHandleRet("list:msg", true)}
-	env.calls = map[string]func(e *c18_rEnv, args []ast.Expr) (c18_rval, error){
-		"messageModifier": func(e *c18_rEnv, args []ast.Expr) (c18_rval, error) {
+	callModifier := func(e *c18_rEnv, args []ast.Expr) (c18_rval, error) {
 			if len(args) != 2 {
 				return c18_rval{}, fmt.Errorf("messageModifier called with %d arguments", len(args))
 			}
@@ -1143,8 +1357,8 @@ func c18_reactModelPre(newAgent *ast.FuncDecl, consts map[string]string) (string
 				return c18_rval{}, fmt.Errorf("messageModifier called on a %s: %v", a.kind, err)
 			}
 			return c18_mark(c18_rval{"(gl_call_fn messageModifier " + a.text + ")", "res:list:msg"}, c18_alias(a)), nil
-		},
 	}
+	env.calls = map[string]func(e *c18_rEnv, args []ast.Expr) (c18_rval, error){"messageModifier": callModifier, "config.MessageModifier": callModifier}
 	body, err := env.stmts(fl.Body.List, "")
 	if err != nil {
 		return "", err
@@ -1153,8 +1367,8 @@ func c18_reactModelPre(newAgent *ast.FuncDecl, consts map[string]string) (string
 }
 
 // toolsNodePreHandle := func(ctx context.Context, input *schema.Message, state *state) (*schema.Message, error)
-func c18_reactToolsPre(newAgent *ast.FuncDecl, consts map[string]string) (string, error) {
-	fl := c18_assignedFuncLit(newAgent.Body, "toolsNodePreHandle")
+func c18_reactToolsPre(newAgent *ast.FuncDecl, consts map[string]string, goName string) (string, error) {
+	fl := c18_assignedFuncLit(newAgent.Body, goName)
 	if fl == nil {
 		return "", fmt.Errorf("not found")
 	}
@@ -1162,10 +1376,10 @@ func c18_reactToolsPre(newAgent *ast.FuncDecl, consts map[string]string) (string
 	if err != nil {
 		return "", err
 	}
-	if names[2] != "state" {
-		return "", fmt.Errorf("the state parameter is called %s", names[2])
+	if names[1] == "state" {
+		return "", fmt.Errorf("the input parameter is called %s", names[1])
 	}
-	env := &c18_rEnv{locals: map[string]c18_rval{names[1]: {names[1], "msg"}, "state": {"state", "state"}, "config.ToolReturnDirectly": {"rd", "set"}},
+	env := &c18_rEnv{locals: map[string]c18_rval{names[1]: {names[1], "msg"}, "state": {"state", "state"}, names[2]: {"state", "state"}, "config.ToolReturnDirectly": {"rd", "set"}},
 		consts: consts, retType: "res msg * gstate", ret: c18_preHandleRet("msg", false)}
 	env.calls = map[string]func(e *c18_rEnv, args []ast.Expr) (c18_rval, error){
 		"getReturnDirectlyToolCallIndex": func(e *c18_rEnv, args []ast.Expr) (c18_rval, error) {
@@ -1213,8 +1427,8 @@ func c18_keyRet(withState bool) func(e *c18_rEnv, rs []ast.Expr) (string, error)
 }
 
 // modelPostBranchCondition := func(ctx context.Context, sr *schema.StreamReader[*schema.Message]) (endNode string, err error)
-func c18_reactModelBranch(newAgent *ast.FuncDecl, consts map[string]string) (string, error) {
-	fl := c18_assignedFuncLit(newAgent.Body, "modelPostBranchCondition")
+func c18_reactModelBranch(newAgent *ast.FuncDecl, consts map[string]string, goName string) (string, error) {
+	fl := c18_assignedFuncLit(newAgent.Body, goName)
 	if fl == nil {
 		return "", fmt.Errorf("not found")
 	}
@@ -1277,6 +1491,10 @@ func c18_reactToolsBranch(buildRD *ast.FuncDecl, consts map[string]string) (stri
 		return "", fmt.Errorf("%d AddBranch calls in buildReturnDirectly", len(bcs))
 	}
 	fl, ok := bcs[0].cond.(*ast.FuncLit)
+	if id, isId := bcs[0].cond.(*ast.Ident); isId && !ok {
+		fl = c18_assignedFuncLit(buildRD.Body, id.Name) // cond := func(…) {…} first, handed on by name
+		ok = fl != nil
+	}
 	if !ok {
 		return "", fmt.Errorf("the condition is not a function literal")
 	}
@@ -1303,10 +1521,10 @@ func c18_reactDirectConvert(buildRD *ast.FuncDecl, consts map[string]string) (st
 	if outer == nil {
 		return "", fmt.Errorf("not found")
 	}
-	if len(outer.Body.List) != 1 {
+	if len(outer.Body.List) < 1 || len(outer.Body.List) > 2 {
 		return "", fmt.Errorf("directReturn has %d statements", len(outer.Body.List))
 	}
-	r, ok := outer.Body.List[0].(*ast.ReturnStmt)
+	r, ok := outer.Body.List[len(outer.Body.List)-1].(*ast.ReturnStmt)
 	if !ok || len(r.Results) != 2 || !c18_isIdent(r.Results[1], "nil") {
 		return "", fmt.Errorf("directReturn does not return a converted stream")
 	}
@@ -1319,6 +1537,14 @@ func c18_reactDirectConvert(buildRD *ast.FuncDecl, consts map[string]string) (st
 		return "", fmt.Errorf("the converted stream is not directReturn's input")
 	}
 	fl, ok := call.Args[1].(*ast.FuncLit)
+	if id, isId := call.Args[1].(*ast.Ident); isId && !ok && len(outer.Body.List) == 2 {
+		// conv := func(…) {…}; return schema.StreamReaderWithConvert(msgs, conv), nil
+		if as, isAs := outer.Body.List[0].(*ast.AssignStmt); isAs && as.Tok == token.DEFINE && len(as.Lhs) == 1 && len(as.Rhs) == 1 && c18_isIdent(as.Lhs[0], id.Name) {
+			fl, ok = as.Rhs[0].(*ast.FuncLit)
+		}
+	} else if len(outer.Body.List) != 1 {
+		ok = false
+	}
 	if !ok {
 		return "", fmt.Errorf("the converter is not a function literal")
 	}
@@ -1366,9 +1592,24 @@ var c18_addNodeComponent = map[string]string{"AddChatModelNode": "ChatModel", "A
 
 type c18_graphWalker struct {
 	consts  map[string]string
-	buildRD *ast.FuncDecl
+	file    *ast.File
+	roles   map[string]string
 	env     *c18_rEnv
 	depth   int
+	cur     *ast.FuncDecl // the function being walked
+	graph   string        // what the function being walked calls the graph
+}
+
+func (g *c18_graphWalker) canon(id string) string {
+	for role, name := range g.roles {
+		if name == id {
+			return role
+		}
+	}
+	if _, isRole := g.roles[id]; isRole {
+		return id + "(not in that part)" // a canonical name used for something else
+	}
+	return id
 }
 
 func (g *c18_graphWalker) key(e ast.Expr) (string, error) {
@@ -1384,20 +1625,41 @@ func (g *c18_graphWalker) key(e ast.Expr) (string, error) {
 
 // one graph.X(…) call -> items
 func (g *c18_graphWalker) call(c *ast.CallExpr) ([]string, bool, error) {
-	if id, ok := c.Fun.(*ast.Ident); ok && id.Name == "buildReturnDirectly" && len(c.Args) == 1 && c18_isIdent(c.Args[0], "graph") {
-		if g.depth > 0 {
-			return nil, true, fmt.Errorf("buildReturnDirectly is recursive")
+	handsGraph := -1
+	for i, a := range c.Args {
+		if c18_isIdent(a, g.graph) {
+			handsGraph = i
+		}
+	}
+	if id, ok := c.Fun.(*ast.Ident); ok && handsGraph >= 0 {
+		// a function of the file that is handed the graph (buildReturnDirectly, or a helper split off NewAgent):
+		// its graph calls happen here
+		callee := c18_topFunc(g.file, id.Name)
+		if callee == nil || callee.Body == nil || len(c.Args) != 1 {
+			return nil, true, fmt.Errorf("the graph is handed to %s", id.Name)
+		}
+		ps := c18_paramList(callee.Type)
+		if len(ps) != 1 || strings.HasPrefix(ps[0], "_ ") {
+			return nil, true, fmt.Errorf("the graph is handed to %s", id.Name)
+		}
+		if g.depth > 3 {
+			return nil, true, fmt.Errorf("%s is recursive", id.Name)
 		}
 		g.depth++
-		old := g.env
+		old, oldName, oldCur := g.env, g.graph, g.cur
 		g.env = &c18_rEnv{locals: map[string]c18_rval{}, consts: g.consts}
-		items, err := g.block(g.buildRD.Body.List)
-		g.env = old
+		g.graph = strings.SplitN(ps[0], " ", 2)[0]
+		g.cur = callee
+		items, err := g.block(callee.Body.List)
+		g.env, g.graph, g.cur = old, oldName, oldCur
 		g.depth--
 		return items, true, err
 	}
 	sel, ok := c.Fun.(*ast.SelectorExpr)
-	if !ok || !c18_isIdent(sel.X, "graph") {
+	if !ok || !c18_isIdent(sel.X, g.graph) {
+		if handsGraph >= 0 {
+			return nil, true, fmt.Errorf("the graph is handed to %s", types.ExprString(c.Fun))
+		}
 		return nil, false, nil
 	}
 	switch sel.Sel.Name {
@@ -1445,11 +1707,18 @@ func (g *c18_graphWalker) call(c *ast.CallExpr) ([]string, bool, error) {
 		var decide string
 		switch cnd := nb.Args[0].(type) {
 		case *ast.Ident:
-			if cnd.Name != "modelPostBranchCondition" {
+			switch {
+			case g.canon(cnd.Name) == "modelPostBranchCondition" && g.depth == 0:
+				decide = "(fun b => model_post_branch unk (fun _ => b) [])"
+			case g.depth > 0 && g.cur != nil && g.cur.Name.Name == "buildReturnDirectly" && c18_assignedFuncLit(g.cur.Body, cnd.Name) != nil:
+				decide = "(fun b => fst (tools_post_branch unk (mkG [] b 0%nat)))" // the closure c18_reactToolsBranch translates
+			default:
 				return nil, true, fmt.Errorf("branch condition %s", cnd.Name)
 			}
-			decide = "(fun b => model_post_branch unk (fun _ => b) [])"
 		case *ast.FuncLit:
+			if g.cur == nil || g.cur.Name.Name != "buildReturnDirectly" {
+				return nil, true, fmt.Errorf("a branch condition literal outside buildReturnDirectly")
+			}
 			decide = "(fun b => fst (tools_post_branch unk (mkG [] b 0%nat)))"
 		default:
 			return nil, true, fmt.Errorf("branch condition outside the translated fragment")
@@ -1476,7 +1745,7 @@ func (g *c18_graphWalker) call(c *ast.CallExpr) ([]string, bool, error) {
 				if !ok || len(oc.Args) != 1 {
 					return nil, true, fmt.Errorf("WithStatePreHandler of something other than a variable")
 				}
-				pre = id.Name
+				pre = g.canon(id.Name)
 			case "compose.WithNodeName":
 			default:
 				return nil, true, fmt.Errorf("node option %s", types.ExprString(oc.Fun))
@@ -1565,11 +1834,13 @@ func (g *c18_graphWalker) block(l []ast.Stmt) ([]string, error) {
 			var hasGraph bool
 			ast.Inspect(ifs, func(n ast.Node) bool {
 				if c, ok := n.(*ast.CallExpr); ok {
-					if sel, ok := c.Fun.(*ast.SelectorExpr); ok && c18_isIdent(sel.X, "graph") && strings.HasPrefix(sel.Sel.Name, "Add") {
+					if sel, ok := c.Fun.(*ast.SelectorExpr); ok && c18_isIdent(sel.X, g.graph) && strings.HasPrefix(sel.Sel.Name, "Add") {
 						hasGraph = true
 					}
-					if c18_isIdent(c.Fun, "buildReturnDirectly") {
-						hasGraph = true
+					for _, a := range c.Args {
+						if c18_isIdent(a, g.graph) {
+							hasGraph = true
+						}
 					}
 				}
 				return true
@@ -1628,8 +1899,19 @@ func (g *c18_graphWalker) block(l []ast.Stmt) ([]string, error) {
 	return pieces, nil
 }
 
-func c18_reactGraphItems(newAgent, buildRD *ast.FuncDecl, consts map[string]string) (string, error) {
-	g := &c18_graphWalker{consts: consts, buildRD: buildRD}
+func c18_reactGraphItems(f *ast.File, newAgent, buildRD *ast.FuncDecl, consts map[string]string, roles map[string]string) (string, error) {
+	g := &c18_graphWalker{consts: consts, file: f, roles: roles, graph: "graph", cur: newAgent}
+	// what NewAgent calls the graph: the variable assigned compose.NewGraph[…](…)
+	ast.Inspect(newAgent.Body, func(n ast.Node) bool {
+		if as, ok := n.(*ast.AssignStmt); ok && len(as.Lhs) == 1 && len(as.Rhs) == 1 {
+			if c, ok := as.Rhs[0].(*ast.CallExpr); ok && strings.HasPrefix(c18_squash(types.ExprString(c.Fun)), "compose.NewGraph[") {
+				if id, ok := as.Lhs[0].(*ast.Ident); ok {
+					g.graph = id.Name
+				}
+			}
+		}
+		return true
+	})
 	g.env = &c18_rEnv{locals: map[string]c18_rval{"config.ToolReturnDirectly": {"rd", "set"}}, consts: consts}
 	pieces, err := g.block(newAgent.Body.List)
 	if err != nil {
@@ -1657,11 +1939,26 @@ func c18_reactCompile(newAgent *ast.FuncDecl) (string, error) {
 			return true
 		}
 		fl, ok := c.Args[0].(*ast.FuncLit)
-		if !ok || len(fl.Body.List) != 1 {
+		if !ok || len(fl.Body.List) < 1 {
 			werr = fmt.Errorf("the state generator is not a single return")
 			return true
 		}
-		r, ok := fl.Body.List[0].(*ast.ReturnStmt)
+		// locals of the generator that are a make(…) of their own: `buf := make(…)` before the return
+		madeHere := map[string]bool{}
+		for _, st := range fl.Body.List[:len(fl.Body.List)-1] {
+			as, ok := st.(*ast.AssignStmt)
+			if ok && as.Tok == token.DEFINE && len(as.Lhs) == 1 && len(as.Rhs) == 1 {
+				if mk, ok := as.Rhs[0].(*ast.CallExpr); ok && c18_isIdent(mk.Fun, "make") {
+					if id, ok := as.Lhs[0].(*ast.Ident); ok {
+						madeHere[id.Name] = true
+						continue
+					}
+				}
+			}
+			werr = fmt.Errorf("the state generator is not a single return")
+			return true
+		}
+		r, ok := fl.Body.List[len(fl.Body.List)-1].(*ast.ReturnStmt)
 		if !ok || len(r.Results) != 1 {
 			werr = fmt.Errorf("the state generator is not a single return")
 			return true
@@ -1684,6 +1981,8 @@ func c18_reactCompile(newAgent *ast.FuncDecl) (string, error) {
 			}
 			if c18_isIdent(kv.Key, "Messages") {
 				if mk, ok := kv.Value.(*ast.CallExpr); ok && c18_isIdent(mk.Fun, "make") {
+					fresh = "true"
+				} else if id, ok := kv.Value.(*ast.Ident); ok && madeHere[id.Name] {
 					fresh = "true"
 				} else {
 					fresh = "false" // a slice of something that outlives the run
@@ -1732,12 +2031,132 @@ func c18_reactCompile(newAgent *ast.FuncDecl) (string, error) {
 	if maxSteps == "" || mode == "" || capE == "" || fresh == "" {
 		return "", fmt.Errorf("WithMaxRunSteps / WithNodeTriggerMode / the state generator not found")
 	}
-	return "(* NewAgent: compile options and the state generator *)\n" +
+	compileOpts, exportOpts, err := c18_optionLists(newAgent)
+	if err != nil {
+		return "", err
+	}
+	strs := func(l []string) string {
+		var q []string
+		for _, x := range l {
+			q = append(q, c18_coqStr(x))
+		}
+		return "[" + strings.Join(q, "; ") + "]"
+	}
+	return "(* NewAgent: the options graph.Compile gets, and the ones ExportGraph hands to a parent graph (WithGraphCompileOptions) *)\n" +
+		"Definition compile_options : list string := " + strs(compileOpts) + ".\n" +
+		"Definition export_options : list string := " + strs(exportOpts) + ".\n" +
+		"(* NewAgent: compile options and the state generator *)\n" +
 		"Definition compile_max_steps (max_step : nat) : nat := " + maxSteps + ".\n" +
 		"Definition compile_trigger_mode : string := " + c18_coqStr(mode) + ".\n" +
 		"Definition state_init_len (max_step : nat) : nat := " + lenE + ".\n" +
 		"Definition state_init_cap (max_step : nat) : nat := " + capE + ".\n" +
 		"Definition state_fresh_per_run : bool := " + fresh + ".\n", nil
+}
+
+// The option list handed to graph.Compile and the one wrapped by compose.WithGraphCompileOptions (what ExportGraph gives a
+// parent graph), as the source texts of the option calls.  NewAgent's top-level statements are followed in order: a local
+// assigned a []compose.GraphCompileOption{…} literal, `v = append(v, o…)` (under `if config.MaxStep != 0` / `> 0` the option
+// WithMaxRunSteps(config.MaxStep) counts as unconditional: a limit of 0 means the default either way; any other condition is
+// kept in the text), and the two calls wherever they occur in a statement.
+func c18_optionLists(newAgent *ast.FuncDecl) ([]string, []string, error) {
+	vars := map[string][]string{}
+	var compileOpts, exportOpts []string
+	haveC, haveE := false, false
+	texts := func(es []ast.Expr) []string {
+		var out []string
+		for _, e := range es {
+			out = append(out, c18_squash(types.ExprString(e)))
+		}
+		return out
+	}
+	var ferr error
+	argList := func(c *ast.CallExpr, from int) []string {
+		if len(c.Args) == from+1 && c.Ellipsis != token.NoPos {
+			if id, ok := c.Args[from].(*ast.Ident); ok {
+				if v, ok := vars[id.Name]; ok {
+					return append([]string{}, v...)
+				}
+			}
+			ferr = fmt.Errorf("an option list that is not a local of NewAgent")
+			return nil
+		}
+		return texts(c.Args[from:])
+	}
+	appendTo := func(as *ast.AssignStmt, cond string) bool {
+		if len(as.Lhs) != 1 || len(as.Rhs) != 1 {
+			return false
+		}
+		id, ok := as.Lhs[0].(*ast.Ident)
+		if !ok {
+			return false
+		}
+		if cl, ok := as.Rhs[0].(*ast.CompositeLit); ok && c18_squash(types.ExprString(cl.Type)) == "[]compose.GraphCompileOption" && cond == "" {
+			vars[id.Name] = texts(cl.Elts)
+			return true
+		}
+		if c, ok := as.Rhs[0].(*ast.CallExpr); ok && c18_isIdent(c.Fun, "append") && len(c.Args) >= 2 && c.Ellipsis == token.NoPos {
+			if src, ok := c.Args[0].(*ast.Ident); ok {
+				if v, ok := vars[src.Name]; ok {
+					nv := append([]string{}, v...)
+					for _, t := range texts(c.Args[1:]) {
+						if cond != "" && !((cond == "config.MaxStep!=0" || cond == "config.MaxStep>0") && t == "compose.WithMaxRunSteps(config.MaxStep)") {
+							t = "if " + cond + ": " + t
+						}
+						nv = append(nv, t)
+					}
+					vars[id.Name] = nv
+					return true
+				}
+			}
+		}
+		if _, isVar := vars[id.Name]; isVar {
+			ferr = fmt.Errorf("assignment to the option list %s outside the translated fragment", id.Name)
+		}
+		return false
+	}
+	scan := func(n ast.Node) {
+		ast.Inspect(n, func(m ast.Node) bool {
+			c, ok := m.(*ast.CallExpr)
+			if !ok {
+				return true
+			}
+			if sel, ok := c.Fun.(*ast.SelectorExpr); ok && sel.Sel.Name == "Compile" && len(c.Args) >= 1 {
+				if haveC {
+					ferr = fmt.Errorf("several Compile calls")
+				}
+				compileOpts, haveC = argList(c, 1), true
+			}
+			if types.ExprString(c.Fun) == "compose.WithGraphCompileOptions" {
+				if haveE {
+					ferr = fmt.Errorf("several WithGraphCompileOptions calls")
+				}
+				exportOpts, haveE = argList(c, 0), true
+			}
+			return true
+		})
+	}
+	for _, st := range newAgent.Body.List {
+		switch x := st.(type) {
+		case *ast.AssignStmt:
+			if appendTo(x, "") {
+				continue
+			}
+		case *ast.IfStmt:
+			if x.Init == nil && x.Else == nil && len(x.Body.List) == 1 {
+				if as, ok := x.Body.List[0].(*ast.AssignStmt); ok && appendTo(as, c18_squash(types.ExprString(x.Cond))) {
+					continue
+				}
+			}
+		}
+		scan(st)
+	}
+	if ferr != nil {
+		return nil, nil, ferr
+	}
+	if !haveC || !haveE {
+		return nil, nil, fmt.Errorf("graph.Compile / compose.WithGraphCompileOptions not found")
+	}
+	return compileOpts, exportOpts, nil
 }
 
 // func (r *Agent) Generate(ctx, input, opts ...agent.AgentOption) … { return r.runnable.Invoke(ctx, input, agent.GetComposeOptions(opts...)...) }
@@ -1750,10 +2169,23 @@ func c18_reactEntries(f *ast.File) (string, error) {
 				fn = fd
 			}
 		}
-		if fn == nil || fn.Body == nil || len(fn.Body.List) != 1 {
+		if fn == nil || fn.Body == nil || len(fn.Body.List) < 1 || len(fn.Body.List) > 2 {
 			return "", fmt.Errorf("method %s is not a single statement", name)
 		}
-		r, ok := fn.Body.List[0].(*ast.ReturnStmt)
+		// optionally `o := agent.GetComposeOptions(opts...)` first
+		optsLocal, optsExpr := "", ""
+		if len(fn.Body.List) == 2 {
+			as, ok := fn.Body.List[0].(*ast.AssignStmt)
+			if !ok || as.Tok != token.DEFINE || len(as.Lhs) != 1 || len(as.Rhs) != 1 {
+				return "", fmt.Errorf("method %s is not a single statement", name)
+			}
+			id, ok := as.Lhs[0].(*ast.Ident)
+			if !ok {
+				return "", fmt.Errorf("method %s is not a single statement", name)
+			}
+			optsLocal, optsExpr = id.Name, c18_squash(types.ExprString(as.Rhs[0]))
+		}
+		r, ok := fn.Body.List[len(fn.Body.List)-1].(*ast.ReturnStmt)
 		if !ok || len(r.Results) != 1 {
 			return "", fmt.Errorf("method %s is not a single return", name)
 		}
@@ -1771,9 +2203,16 @@ func c18_reactEntries(f *ast.File) (string, error) {
 			return "", fmt.Errorf("method %s does not hand on its context and input", name)
 		}
 		opts := "false"
-		if len(c.Args) == 3 && c.Ellipsis != token.NoPos && c18_squash(types.ExprString(c.Args[2])) == "agent.GetComposeOptions("+strings.SplitN(ps[2], " ", 2)[0]+"...)" {
+		handed := ""
+		if len(c.Args) == 3 {
+			handed = c18_squash(types.ExprString(c.Args[2]))
+			if optsLocal != "" && handed == optsLocal {
+				handed = optsExpr
+			}
+		}
+		if len(c.Args) == 3 && c.Ellipsis != token.NoPos && handed == "agent.GetComposeOptions("+strings.SplitN(ps[2], " ", 2)[0]+"...)" {
 			opts = "true"
-		} else if len(c.Args) != 2 {
+		} else if len(c.Args) != 2 || optsLocal != "" {
 			return "", fmt.Errorf("method %s: options outside the translated fragment", name)
 		}
 		rows = append(rows, "("+c18_coqStr(name)+", "+c18_coqStr(sel.Sel.Name)+", "+opts+")")
@@ -1854,13 +2293,33 @@ func c18_heapPre(newAgent *ast.FuncDecl, goName, coqName string, chat bool) (str
 		return "", fmt.Errorf("not found")
 	}
 	ps := c18_paramList(fl.Type)
-	if len(ps) != 3 || !strings.HasSuffix(ps[2], " *state") || strings.SplitN(ps[2], " ", 2)[0] != "state" {
+	if len(ps) != 3 || !strings.HasSuffix(ps[2], " *state") {
 		return "", fmt.Errorf("parameters outside the translated fragment")
 	}
+	stName := strings.SplitN(ps[2], " ", 2)[0]
 	in := strings.SplitN(ps[1], " ", 2)[0]
+	if stName == "_" || stName == in {
+		return "", fmt.Errorf("parameters outside the translated fragment")
+	}
 	slices := map[string]string{} // local slice variables -> Gallina slice expression
 	ints := map[string]string{}
-	isMsgs := func(e ast.Expr) bool { return types.ExprString(e) == "state.Messages" }
+	isMsgs := func(e ast.Expr) bool { return types.ExprString(e) == stName+".Messages" }
+	isNilTest := func(c ast.Expr, op string) bool {
+		t := c18_squash(types.ExprString(c))
+		return t == "messageModifier"+op+"nil" || t == "config.MessageModifier"+op+"nil" || t == "nil"+op+"messageModifier" || t == "nil"+op+"config.MessageModifier"
+	}
+	isModifier := func(e ast.Expr) bool {
+		t := types.ExprString(e)
+		return t == "messageModifier" || t == "config.MessageModifier"
+	}
+	// does every path of these statements end in a return?
+	endsInReturn := func(l []ast.Stmt) bool {
+		if len(l) == 0 {
+			return false
+		}
+		_, ok := l[len(l)-1].(*ast.ReturnStmt)
+		return ok
+	}
 	// a slice-valued expression
 	var sliceOf func(e ast.Expr) (string, error)
 	intOf := func(e ast.Expr) (string, error) {
@@ -1953,27 +2412,67 @@ func c18_heapPre(newAgent *ast.FuncDecl, goName, coqName string, chat bool) (str
 						r, err := tr(l[1:])
 						return "let " + id.Name + " := " + n + " in\n" + r, err
 					}
+					// x := S (another header of the same array)
+					if sl, err := sliceOf(st.Rhs[0]); err == nil {
+						if _, clash := slices[id.Name]; clash || id.Name == in {
+							return "", fmt.Errorf("slice variable %s defined twice", id.Name)
+						}
+						slices[id.Name] = sl
+						return tr(l[1:])
+					}
 				}
 			}
 			// assignments to other fields of the state: no effect on the heap
 			for _, lx := range st.Lhs {
 				base, path, ok := c18_selPath(lx)
-				if !ok || base != "state" || path == "Messages" || path == "" {
+				if id, isId := lx.(*ast.Ident); isId && st.Tok == token.DEFINE && id.Name != in && id.Name != stName {
+					continue // a := …, b := … of values that are not slices of the history (the pair of getReturnDirectlyToolCallIndex)
+				}
+				if !ok || base != stName || path == "Messages" || path == "" {
 					return "", fmt.Errorf("assignment outside the translated fragment")
 				}
 			}
 			return tr(l[1:])
 		case *ast.IfStmt:
-			// if messageModifier == nil { return state.Messages, nil }
-			if st.Init == nil && st.Else == nil && c18_squash(types.ExprString(st.Cond)) == "messageModifier==nil" && len(st.Body.List) == 1 {
-				if r, ok := st.Body.List[0].(*ast.ReturnStmt); ok && len(r.Results) == 2 && c18_isIdent(r.Results[1], "nil") {
-					sl, err := sliceOf(r.Results[0])
-					if err != nil {
-						return "", err
+			// if messageModifier == nil { return state.Messages, nil } …   /   if messageModifier != nil { …; return messageModifier(…), nil } …
+			if st.Init == nil && (isNilTest(st.Cond, "==") || isNilTest(st.Cond, "!=")) && endsInReturn(st.Body.List) {
+				var other []ast.Stmt
+				switch el := st.Else.(type) {
+				case nil:
+					other = l[1:]
+				case *ast.BlockStmt:
+					if !endsInReturn(el.List) {
+						return "", fmt.Errorf("if statement outside the translated fragment")
 					}
-					rest, err := tr(l[1:])
-					return "match messageModifier with\n| None => " + hand(sl) + "\n| Some modifier_fn =>\n" + rest + "\nend", err
+					other = el.List
+				default:
+					return "", fmt.Errorf("if statement outside the translated fragment")
 				}
+				whenNil, whenSet := st.Body.List, other
+				if isNilTest(st.Cond, "!=") {
+					whenNil, whenSet = other, st.Body.List
+				}
+				// the slice variables of one arm are not visible in the other: translate each with a copy of the tables
+				save := func() (map[string]string, map[string]string) {
+					a, b := map[string]string{}, map[string]string{}
+					for k, v := range slices {
+						a[k] = v
+					}
+					for k, v := range ints {
+						b[k] = v
+					}
+					return a, b
+				}
+				s0, i0 := save()
+				n, err := tr(whenNil)
+				if err != nil {
+					return "", err
+				}
+				slices, ints = s0, i0
+				s1, i1 := save()
+				m, err := tr(whenSet)
+				slices, ints = s1, i1
+				return "match messageModifier with\n| None => " + n + "\n| Some modifier_fn =>\n" + m + "\nend", err
 			}
 			return "", fmt.Errorf("if statement outside the translated fragment")
 		case *ast.ReturnStmt:
@@ -1983,7 +2482,7 @@ func c18_heapPre(newAgent *ast.FuncDecl, goName, coqName string, chat bool) (str
 			if c18_isIdent(st.Results[0], in) && !chat {
 				return "mkH h msgs handed", nil
 			}
-			if c, ok := st.Results[0].(*ast.CallExpr); ok && c18_isIdent(c.Fun, "messageModifier") && len(c.Args) == 2 {
+			if c, ok := st.Results[0].(*ast.CallExpr); ok && isModifier(c.Fun) && len(c.Args) == 2 {
 				sl, err := sliceOf(c.Args[1])
 				if err != nil {
 					return "", err
